@@ -532,8 +532,8 @@ def python_format(tier, seed):
     tpl = PythonTemplater(override_context=ctx)
     exact_n = 7 if tier == "thorough" else 5
     n_sample = 0 if tier == "thorough" else 20000
-    exact_tok = 4 if tier == "thorough" else 3
-    n_grammar = 60000 if tier == "thorough" else 4000
+    exact_tok = 3
+    n_grammar = 150000 if tier == "thorough" else 4000
     seen_valid, nontrivial, samples = set(), 0, []
 
     def one(s, always=False):
